@@ -17,6 +17,8 @@ RULES = {
     'C17.b': 'the connections counter is not re-read in a later critical section to write its mirror key '
              '(counter update and mirror must be one atomic step)',
     'C17.c': 'the decrement is a checked / saturating subtraction or is dominated by a > 0 test',
+    'C17.g': 'a session gives its connection back once: the entry points from which Client::left is reachable (library callbacks, thread '
+             'closures) are one per transport object, and none reaches it twice on one path',
     'C17.e': 'every update of the connections counter is atomic: made under the write lock of Database.connections, or by one atomic '
              'read-modify-write call (fetch_add / fetch_sub / fetch_update / compare_exchange) — never a load followed by a store under a '
              'shared lock',
@@ -211,6 +213,39 @@ def run(ck, m):
                       'after executing a command the function can return (%s) without Client::left: the session that selected a database is '
                       'dropped with its connection still counted — $connections never falls back' % [b.loc(y) for y in sorted(esc)], b.loc(x))
         ck.floor('C17.a', nd, 1, 'command dispatches in functions that also end the session')
+        # a session gives its connection back ONCE: walking up the call graph from Client::left, the entry points that nobody in the node
+        # calls (callbacks of a library: the methods of the ws Handler; the thread closures of the tcp / http transports) are one per
+        # transport object — two callbacks of one Handler that both release (on_error as well as on_close: ws calls both when a connection
+        # breaks) count one session down twice, and the sessions still open are under-counted
+        C_ = P.callers()
+        up, st_ = {lb.id}, [lb.id]
+        while st_:
+            x_ = st_.pop()
+            for cb_, _cbi in C_.get(x_, []):
+                if cb_.id not in up and not cb_.id.startswith(('nundb::client::', 'nundb::command_line::')):
+                    up.add(cb_.id)
+                    st_.append(cb_.id)
+        roots_ = sorted(x_ for x_ in up if not [1 for cb_, _ in C_.get(x_, []) if cb_.id != x_])
+        groups_ = {}
+        for r_ in roots_:
+            key_ = r_.rsplit('>::', 1)[0] + '>' if r_.startswith('<') and '>::' in r_ else r_
+            groups_.setdefault(key_, []).append(r_)
+        twice = {k_: v_ for k_, v_ in groups_.items() if len(v_) > 1}
+        # ... and no entry point reaches it twice in a row
+        again = []
+        for x_ in sorted(up):
+            b_ = P.bodies[x_]
+            rel = [bi_ for bi_, t_ in b_.calls() if callee(t_) in up and callee(t_) != x_]
+            for bi_ in rel:
+                if any(y_ in b_.reach_from([bi_]) for y_ in rel if y_ != bi_):
+                    again.append('%s@%s' % (short(x_), b_.loc(bi_)))
+        ck.ob('C17.g', 'Client::left', 'one-release-per-session', not twice and not again,
+              'every transport object has one entry point that gives the connection back (%s)' % [short(r_) for r_ in roots_] if not twice and not again else
+              'a session can give its connection back twice: %s — the counter and $connections of a database with other open sessions fall '
+              'below the number of sessions' % ('; '.join('%s are callbacks of one object and both reach Client::left' % [short(x_) for x_ in v_]
+                                                          for v_ in twice.values()) or 'Client::left reached again after %s' % again[:2]),
+              '%s:%s' % (lb.file, lb.line))
+        ck.floor('C17.g', len(roots_), 3, 'entry points that reach Client::left')
     # the give-back never depends on luck: no try_read / try_write / try_lock on the way from a session end to the decrement (a
     # release that is skipped when a lock happens to be busy — a create-db holding or merely waiting for Databases.map — is never
     # made up for: the connection stays counted)
